@@ -55,7 +55,7 @@ CHECKS["C12"] = {
 CHECKS["C17"] = {
     "script": "c17.py", "category": "model_checking",
     "technique": "stateless model checking of the real turbotunnel adapters under a controlled scheduler (exhaustive DFS over schedules with DPOR + sleep sets, virtual time) with scripted carriers",
-    "text": U + " of RedialPacketConn with 1-3 scripted carriers x failure scripts {none, read, write, both, late write} x dial end {error, block} x close instants; oracle: no error before Close/dial failure, at most one carrier active, every carrier closed, no goroutine of the package alive after Close, user calls unblocked, packets unmodified and in order despite buffer scribbling.",
+    "text": U + " of RedialPacketConn with 1-3 scripted carriers x failure scripts {none, read, write, both, late write} x dial end {error, block} x close instants (no error before Close/dial failure, at most one carrier active, every carrier closed, no goroutine of the package alive after Close, packets unmodified and in order despite buffer scribbling); QueuePacketConn: all operation sequences <=5(6) against a FIFO reference, overflow run, concurrent feeders/reader/writer/closer; ClientMap with its real sweeper on virtual time (retention until T-1ns, discarded and closed by 1.5T); clientMapInner with explicit clock: breadth-first to a fixpoint with heap/index invariants.",
     "design_ref": "§3 C17", "note": SCHED_NOTE,
 }
 CHECKS["C07"] = {
@@ -69,6 +69,12 @@ CHECKS["C10"] = {
     "technique": "bounded-exhaustive enumeration of payload sizes x write/read chunkings (deviation-bounded scripts) x whitespace rewritings x markup insertions x token strings on the real AMP armor codec",
     "text": "Payload lengths on every chunk/element boundary up to 120 kB x contents; encoder write scripts and decoder read scripts with <=2 deviations; every separator rewritten to each ASCII whitespace / doubled / CRLF; 4 markups at every outside-pre offset; every truncation; all token strings <=5 (<=6 thorough) over 16 tokens; endless inputs with bounded-buffering measurement and 60 s watchdog re-run 3x.",
     "design_ref": "§3 C10", "note": ENUM_NOTE,
+}
+CHECKS["C15"] = {
+    "script": "c15.py", "category": "model_checking",
+    "technique": "stateless model checking of the real Peers/connectLoop/WebRTCPeer.Close under a controlled scheduler (DPOR + sleep sets, virtual time) + enumeration of constructor failure kinds with real pion",
+    "text": U + " of connectLoop, a popping data path, peers closing on their own and one or two End callers for max in {1,2(,3)} x scripted Catch outcomes {now, 3 s, error}; oracle: live peers <= max, Pop never returns a peer whose Close completed before the call, every End returns and never panics, no Catch begins and connectLoop stops after End, all peers closed. Plus NewWebRTCPeerWithEvents (real pion) over 6 ICE configurations x 20 rendezvous failures and SnowflakeConn.Close once/twice/concurrently on a real KCP+smux session.",
+    "design_ref": "§3 C15", "note": SCHED_NOTE + " Peers in the scheduled harness carry no pion objects (as in the repository's own tests); process exit status is not decided.",
 }
 CHECKS["C08"] = {
     "script": "c08.py", "category": "exploration", "engine": "enum",
